@@ -86,7 +86,16 @@ def main(argv):
         print("check: property %s is not claimed (see MANIFEST.json not_applicable)" % prop)
         return 2
     pr = reg["properties"][prop]
-    work = os.path.join(vxlib.WORK, "run", prop)
+    alt = (os.path.realpath(REPO) != "/repo") or bool(os.environ.get("VERIF_NO_EVIDENCE"))
+    global EVID, REPLAY
+    if alt:
+        # scratch-tree run (self-test / mutation smoke test): keep /verif/evidence and /verif/replay for /repo itself
+        base = os.path.join(vxlib.WORK, "alt", "%d" % os.getpid())
+        EVID = os.path.join(base, "evidence")
+        REPLAY = os.path.join(base, "replay")
+        work = os.path.join(base, "run", prop)
+    else:
+        work = os.path.join(vxlib.WORK, "run", prop)
     os.makedirs(work, exist_ok=True)
     infra = []
     failed = []  # entries tagged with prop
